@@ -68,6 +68,11 @@ func init() {
 			t := in.ex.Nondet("int", bits, 0)
 			return in.tt.Resize(t, 64, true), true
 		},
+		"vNondetIntQ": func(in *Interp, fn *ssa.Function, a []Value, s ssa.Instruction) (Value, bool) {
+			bits := in.concInt(a[0], "vNondetIntQ bits")
+			t := in.ex.Nondet("intq", bits, 0)
+			return in.tt.Resize(t, 64, true), true
+		},
 		"vNondetByte": func(in *Interp, fn *ssa.Function, a []Value, s ssa.Instruction) (Value, bool) {
 			t := in.ex.Nondet("int", 8, 0)
 			return t, true
